@@ -76,12 +76,13 @@ impl ZmtpFrameEncoder {
         let payload = msg.data_bytes().unwrap_or_default();
         let len = payload.len();
         let is_more = msg.flags().contains(MsgFlags::MORE);
+        let cmd_bit = if msg.flags().contains(MsgFlags::COMMAND) { 0x04 } else { 0x00 };
 
         if len <= 255 {
-          self.header_slab.put_u8(if is_more { 0x01 } else { 0x00 });
+          self.header_slab.put_u8((if is_more { 0x01 } else { 0x00 }) | cmd_bit);
           self.header_slab.put_u8(len as u8);
         } else {
-          self.header_slab.put_u8(if is_more { 0x03 } else { 0x02 });
+          self.header_slab.put_u8((if is_more { 0x03 } else { 0x02 }) | cmd_bit);
           self.header_slab.put_u64(len as u64);
         }
 
